@@ -37,6 +37,7 @@ func (r *run) execCall(fr *frame, st *State, instr ssa.Value, c *ssa.CallCommon,
 		return wrapRes(r.invoke(fr, st, c, recv, args, reach, pos))
 	}
 	if callee := c.StaticCallee(); callee != nil {
+		r.curCall = c
 		var bindings []Val
 		if mc, ok := c.Value.(*ssa.MakeClosure); ok {
 			for _, b := range mc.Bindings {
@@ -278,8 +279,11 @@ func (r *run) invoke(fr *frame, st *State, c *ssa.CallCommon, recv Val, args []V
 		}
 		pk := m.Pkg
 		if pk == nil || !inRepo(pk.Pkg) {
-			// implementation outside the repo: lumped with "other"
-			continue
+			// implementation outside the repo: lumped with "other" unless it carries an
+			// assumed contract (contracts/ext)
+			if r.eng.Contracts[m.String()] == nil {
+				continue
+			}
 		}
 		g := r.eng.Sorts.IsType(t, recv.Term)
 		guards = append(guards, g)
@@ -816,13 +820,17 @@ func (r *run) sprintf(args []Val) (Val, bool) {
 		return Val{}, false
 	}
 	format, ok := smtUnescape(args[0].Term)
-	if !ok || (format != "%v" && format != "%s" && format != "%d") {
+	if !ok {
 		return Val{}, false
+	}
+	if format != "%v" && format != "%s" && format != "%d" {
+		return r.sprintfUF(format, args[1])
 	}
 	n, known := r.knownLen(args[1])
 	if !known || n != 1 {
 		return Val{}, false
 	}
+	_ = format
 	m := strings.TrimPrefix(args[1].Sort, "Slice_")
 	el := fmt.Sprintf("(select (arr_%s %s) 0)", m, args[1].Term)
 	var strCases, intCases []string
@@ -844,4 +852,84 @@ func (r *run) sprintf(args []Val) (Val, bool) {
 	}
 	r.assumed["assumed contract: fmt.Sprintf(\"%v\"|\"%s\"|\"%d\", x) of a string is the string, of an integer its decimal rendering"] = true
 	return Val{Term: term, Sort: "String", Type: types.Typ[types.String]}, true
+}
+
+// sprintfUF: fmt.Sprintf with a constant format whose operands are all statically integers or
+// strings is a deterministic function of the operand values: sprintf_<sig>(format, operands).
+func (r *run) sprintfUF(format string, pack Val) (Val, bool) {
+	n, known := r.knownLen(pack)
+	if !known || n < 1 || n > 6 {
+		return Val{}, false
+	}
+	m := strings.TrimPrefix(pack.Sort, "Slice_")
+	// static operand types: the variadic pack is a slice of a fresh [n]any whose elements the
+	// caller stored as MakeInterface values
+	ots := r.packTypes(n)
+	if ots == nil {
+		return Val{}, false
+	}
+	sig := ""
+	var ops []string
+	for i := 0; i < n; i++ {
+		ct := ots[i]
+		el := fmt.Sprintf("(select (arr_%s %s) %d)", m, pack.Term, i)
+		switch r.eng.Sorts.SortOf(ct) {
+		case "Int":
+			if _, isB := ct.Underlying().(*types.Basic); !isB {
+				return Val{}, false
+			}
+			sig += "I"
+		case "String":
+			sig += "S"
+		default:
+			return Val{}, false
+		}
+		ops = append(ops, r.eng.Sorts.Unbox(ct, el))
+	}
+	_ = m
+	r.assumed["assumed contract: fmt.Sprintf with a constant format and integer/string operands is a deterministic function of its operands"] = true
+	return Val{Term: fmt.Sprintf("(sprintf_%s %s %s)", sig, smtString(format), strings.Join(ops, " ")), Sort: "String", Type: types.Typ[types.String]}, true
+}
+
+// packTypes returns the static types of the n operands packed into the variadic argument of
+// the call being executed, or nil when they cannot be read off the SSA.
+func (r *run) packTypes(n int) []types.Type {
+	c := r.curCall
+	if c == nil || len(c.Args) == 0 {
+		return nil
+	}
+	sl, ok := c.Args[len(c.Args)-1].(*ssa.Slice)
+	if !ok {
+		return nil
+	}
+	al, ok := sl.X.(*ssa.Alloc)
+	if !ok || al.Referrers() == nil {
+		return nil
+	}
+	out := make([]types.Type, n)
+	for _, ref := range *al.Referrers() {
+		ia, ok := ref.(*ssa.IndexAddr)
+		if !ok || ia.Referrers() == nil {
+			continue
+		}
+		k, ok := ia.Index.(*ssa.Const)
+		if !ok || k.Int64() < 0 || int(k.Int64()) >= n {
+			return nil
+		}
+		for _, r2 := range *ia.Referrers() {
+			if stI, ok := r2.(*ssa.Store); ok && stI.Addr == ia {
+				mi, ok := stI.Val.(*ssa.MakeInterface)
+				if !ok {
+					return nil
+				}
+				out[k.Int64()] = mi.X.Type()
+			}
+		}
+	}
+	for _, t := range out {
+		if t == nil {
+			return nil
+		}
+	}
+	return out
 }
